@@ -88,6 +88,16 @@ func c04Sets(tier string) []c04Set {
 		// upper with two documents
 		sets = append(sets, c04Set{fmt.Sprintf("2doc-upper n=%v", n), [][]any{two, {map[string]any{"$match": map[string]any{"a": n}, "y": 1}, map[string]any{"$match": map[string]any{"a": m}, "y": 2}}}})
 	}
+	// empty-map documents: the only spelling in TOML is empty text
+	e := map[string]any{}
+	sets = append(sets,
+		c04Set{"empty-doc alone", [][]any{{e}}},
+		c04Set{"empty-doc matched by {}", [][]any{{e}, {map[string]any{"$match": map[string]any{}, "y": 1}}}},
+		c04Set{"stream with trailing empty doc", [][]any{{map[string]any{"a": 1}, e}, {map[string]any{"$match": map[string]any{}, "y": 1}}}},
+		c04Set{"stream with leading empty doc", [][]any{{e, map[string]any{"a": 1}}, {map[string]any{"z": 2}}}},
+		c04Set{"empty upper layer", [][]any{{map[string]any{"a": 1}}, {e}}},
+		c04Set{"nested empty containers", [][]any{{map[string]any{"m": map[string]any{}, "l": []any{}, "k": map[string]any{"e": map[string]any{}}}}, {map[string]any{"m": map[string]any{"x": 1}}}}},
+	)
 	return sets
 }
 
